@@ -212,6 +212,25 @@ def run(tier, seed):
             for rname, schema in [("direct", direct)] + sorted(routes.items()):
                 jobs.append({"op": "generate", "summary": True, "nofiles": True, "files": {"sqlc.json": cfg, "schema.sql": schema, "query.sql": q}})
                 meta.append((sp, nn, rname, schema))
+    # ... and MySQL: MODIFY [COLUMN] from another type (into and out of tinyint(1) / bool, whose display width decides the Go
+    # type), ADD COLUMN, drop-and-re-add
+    my_sample = [sp for sp, _ in MY_SPELLINGS][::2] + ["tinyint(1)", "bool", "boolean", "tinyint(4)", "int"] if tier == "quick" else [sp for sp, _ in MY_SPELLINGS]
+    for sp in dict.fromkeys(my_sample):
+        for nn in (True, False):
+            n_ = " NOT NULL" if nn else ""
+            direct = "CREATE TABLE t (id %s%s, other %s%s);\n" % (sp, n_, sp, n_)
+            routes = {}
+            for k_, frm in enumerate(["int", "tinyint(1)", "text", "tinyint(4)"]):
+                if frm != sp:
+                    routes["my-modify-from-%d" % k_] = "CREATE TABLE t (id %s, other %s%s);\nALTER TABLE t MODIFY COLUMN id %s%s;\n" % (frm, sp, n_, sp, n_)
+            routes["my-modify-both"] = "CREATE TABLE t (id tinyint(1) NOT NULL, other int);\nALTER TABLE t MODIFY id %s%s, MODIFY other %s%s;\n" % (sp, n_, sp, n_)
+            routes["my-add-column"] = "CREATE TABLE t (id %s%s);\nALTER TABLE t ADD COLUMN other %s%s;\n" % (sp, n_, sp, n_)
+            routes["my-drop-re-add"] = "CREATE TABLE t (id %s%s, other tinyint(1));\nALTER TABLE t DROP COLUMN other;\nALTER TABLE t ADD COLUMN other %s%s;\n" % (sp, n_, sp, n_)
+            q = "-- name: Q :many\nSELECT id, other FROM t WHERE id = ? AND other = ?;\n"
+            cfg = json.dumps({"version": "1", "packages": [{"path": "db", "engine": "mysql", "schema": "schema.sql", "queries": "query.sql"}]})
+            for rname, schema in [("direct", direct)] + sorted(routes.items()):
+                jobs.append({"op": "generate", "summary": True, "nofiles": True, "files": {"sqlc.json": cfg, "schema.sql": schema, "query.sql": q}})
+                meta.append(("mysql:" + sp, nn, rname, schema))
     res = run_harness(jobs)
     base = {}
     for (sp, nn, rname, schema), r in zip(meta, res):
@@ -224,6 +243,10 @@ def run(tier, seed):
         for fname in ("db/models.go", "db/query.sql.go"):
             for st in r["summary"].get(fname, {}).get("structs", []):
                 view[st["name"]] = sorted((f["name"], f["type"]) for f in st["fields"])
+        # a route may leave the columns in another order (MySQL MODIFY re-adds the column at the end): the query then gets a row
+        # struct of its own instead of the model struct - with the same fields, which is what is compared
+        if view.get("QRow") == view.get("T"):
+            view.pop("QRow", None)
         if rname == "direct":
             base[(sp, nn)] = (view, schema)
             continue
